@@ -60,6 +60,8 @@ type SQLTx struct {
 
 	txHeader *store.TxHeader // header is set once tx is committed
 
+	cancelled bool // set when the tx was closed by Cancel (ROLLBACK, failed statement)
+
 	onCommittedCallbacks []onCommittedCallback
 
 	savepoints map[string]*savepointState
@@ -200,7 +202,16 @@ func (sqlTx *SQLTx) ReleaseSavepoint(name string) error {
 func (sqlTx *SQLTx) Cancel() error {
 	defer sqlTx.removeTempFiles()
 
+	if !sqlTx.tx.Closed() {
+		sqlTx.cancelled = true
+	}
+
 	return sqlTx.tx.Cancel()
+}
+
+// Cancelled reports whether the transaction was closed by a rollback: none of its changes was applied
+func (sqlTx *SQLTx) Cancelled() bool {
+	return sqlTx.cancelled
 }
 
 func (sqlTx *SQLTx) Commit(ctx context.Context) error {
